@@ -422,7 +422,8 @@ unsafe fn dispose_general_node<T: RcObject>(
     crate::verif::pre(crate::verif::site::U_DG_LOAD);
     let state = State::from_raw(rc.state.load(Ordering::SeqCst));
     let node_epoch = state.epoch();
-    debug_assert_eq!(state.strong(), 0);
+    // A child's count may have been raised again since the cascade brought it to zero.
+    debug_assert!(depth > 0 || state.strong() == 0);
 
     #[cfg(circ_verif)]
     crate::verif::pre(crate::verif::site::U_DG_EPOCH);
@@ -434,6 +435,31 @@ unsafe fn dispose_general_node<T: RcObject>(
     // old enough, `modu.le` may return false.
     if depth == 0 || modu.le(node_epoch as _, curr_epoch as isize - 3) {
         // The current node is immediately reclaimable.
+        if depth > 0 {
+            // A child has not gone through `try_destruct`, so it is not marked yet. Mark it, so
+            // that later upgrades fail, unless someone took a reference (or a token) since the
+            // count reached zero: then the object stays and a deferred `try_destruct` decides.
+            let mut old = state;
+            loop {
+                if old.strong() > 0 {
+                    guard.defer_with_inner(rc, |rc| RcInner::try_destruct(rc));
+                    #[cfg(circ_verif)]
+                    crate::verif::ev(crate::verif::site::EV_DEFER_DESTRUCT, rc as *mut _ as usize, 3, depth as u64);
+                    return;
+                }
+                #[cfg(circ_verif)]
+                crate::verif::pre(crate::verif::site::U_DG_MARK_CAS);
+                match rc.state.compare_exchange(
+                    old.as_raw(),
+                    old.with_destructed(true).as_raw(),
+                    Ordering::SeqCst,
+                    Ordering::SeqCst,
+                ) {
+                    Ok(_) => break,
+                    Err(curr) => old = State::from_raw(curr),
+                }
+            }
+        }
         #[cfg(circ_verif)]
         crate::verif::ev(
             crate::verif::site::EV_DG_DECIDE,
